@@ -1,4 +1,5 @@
-(** * C18 - gwb-grid writes the requested mesh (Cartesian grids) and the tag filter keeps the selected cells. *)
+(** * C18 - gwb-grid writes the requested mesh (Cartesian boxes, chunks, annulus) and the tag filter keeps the selected cells.
+    The sphere grid (12 mapped blocks merged by a distance tolerance) is not modelled: checked by parsing only. *)
 From Coq Require Import List Arith Lia PeanoNat Bool ZArith Reals Lra.
 From WB Require Import Grid GridProofs.
 Import ListNotations.
@@ -51,6 +52,60 @@ Proof.
 Qed.
 Local Close Scope R_scope.
 
+(** ** 2-D chunk grids (3-D chunk grids use the node numbering and the connectivity of the 3-D box above) *)
+Theorem C18_counts_chunk2 : forall nx nz,
+  length (nodes_chunk2 nx nz) = (nx + 1) * (nz + 1) /\ length (cells_chunk2 nx nz) = nx * nz.
+Proof. intros. split; [apply nodes_chunk2_count | apply cells_chunk2_count]. Qed.
+
+Theorem C18_node_order_chunk2 : forall nx nz i j, i <= nx -> j <= nz ->
+  nth (cnode2 nz i j) (nodes_chunk2 nx nz) (0, 0) = (i, j).
+Proof. exact nodes_chunk2_order. Qed.
+
+Theorem C18_cell_corners_chunk2 : forall nz i j, 1 <= i -> 1 <= j ->
+  conn_chunk2 nz i j = [ cnode2 nz (i - 1) (j - 1); cnode2 nz (i - 1) j; cnode2 nz i j; cnode2 nz i (j - 1) ].
+Proof. exact conn_chunk2_corners. Qed.
+
+Theorem C18_cells_reference_nodes_chunk2 : forall nx nz i j v,
+  1 <= i <= nx -> 1 <= j <= nz -> In v (conn_chunk2 nz i j) -> v < (nx + 1) * (nz + 1).
+Proof. exact conn_chunk2_in_range. Qed.
+
+(** ** annulus: nt cells around; every cell references existing nodes, its corners are the nodes i and the successor of
+    i around the ring on the rings j-1 and j, and the ring closes on itself (cell nt shares its edge with cell 1) *)
+Theorem C18_counts_annulus : forall nt nz,
+  length (nodes_annulus nt nz) = nt * (nz + 1) /\ length (cells_annulus nt nz) = nt * nz.
+Proof. intros. split; [apply nodes_annulus_count | apply cells_annulus_count]. Qed.
+
+Theorem C18_cell_corners_annulus : forall nt i j, 1 <= i <= nt -> 1 <= j ->
+  conn_annulus nt i j = [ anode nt (awrap nt i) (j - 1); anode nt i (j - 1); anode nt i j; anode nt (awrap nt i) j ].
+Proof. exact conn_annulus_corners. Qed.
+
+Theorem C18_cells_reference_nodes_annulus : forall nt nz i j v,
+  1 <= i <= nt -> 1 <= j <= nz -> In v (conn_annulus nt i j) -> v < nt * (nz + 1).
+Proof. exact conn_annulus_in_range. Qed.
+
+Theorem C18_annulus_ring_closes : forall nt j, 1 <= nt -> 1 <= j ->
+  nth 0 (conn_annulus nt nt j) 0 = nth 1 (conn_annulus nt 1 j) 0 /\
+  nth 3 (conn_annulus nt nt j) 0 = nth 2 (conn_annulus nt 1 j) 0.
+Proof. exact annulus_ring_closes. Qed.
+
+(** annulus node positions (exact reals): node i of a ring sits at the angle 2 pi (i-1)/nt - the ring is divided
+    evenly and node nt+1 would be node 1 again - at the radius inner + j dr, and its Depth, computed by the tool as
+    outer - |position|, is the distance outer - (inner + j dr) below the top of the grid *)
+Local Open Scope R_scope.
+Theorem C18_annulus_positions : forall (l_outer inner zi theta : R) (nt i : nat), (0 < nt)%nat -> l_outer <> 0 -> 0 <= inner + zi ->
+  (INR i - 1) * (l_outer / INR nt) / l_outer * 2 * PI = 2 * PI * ((INR i - 1) / INR nt) /\
+  (INR (nt + 1) - 1) * (l_outer / INR nt) / l_outer * 2 * PI = 2 * PI /\
+  sqrt (cos theta * (inner + zi) * (cos theta * (inner + zi)) + sin theta * (inner + zi) * (sin theta * (inner + zi))) = inner + zi.
+Proof.
+  intros l_outer inner zi theta nt i Hn Hl Hr. assert (INR nt <> 0) by (apply not_0_INR; lia). repeat split.
+  - field. split; assumption.
+  - rewrite plus_INR. cbn [INR]. field. split; assumption.
+  - replace (cos theta * (inner + zi) * (cos theta * (inner + zi)) + sin theta * (inner + zi) * (sin theta * (inner + zi)))
+      with ((inner + zi) * (inner + zi) * (sin theta * sin theta + cos theta * cos theta)) by ring.
+    pose proof (sin2_cos2 theta) as S. unfold Rsqr in S. rewrite S, Rmult_1_r. apply sqrt_square. exact Hr.
+Qed.
+Local Close Scope R_scope.
+
 (** the filtered / by-tag outputs contain exactly the selected cells, one offset per cell *)
 Theorem C18_filter_cells : forall nvert npoints include tags cells,
   fs_cells (filter_mesh nvert npoints include tags cells) = length (filter (keep_cell include tags) cells) /\
@@ -67,3 +122,12 @@ Print Assumptions C18_cell_corners_2d.
 Print Assumptions C18_cells_reference_nodes_2d.
 Print Assumptions C18_positions.
 Print Assumptions C18_filter_cells.
+Print Assumptions C18_counts_chunk2.
+Print Assumptions C18_node_order_chunk2.
+Print Assumptions C18_cell_corners_chunk2.
+Print Assumptions C18_cells_reference_nodes_chunk2.
+Print Assumptions C18_counts_annulus.
+Print Assumptions C18_cell_corners_annulus.
+Print Assumptions C18_cells_reference_nodes_annulus.
+Print Assumptions C18_annulus_ring_closes.
+Print Assumptions C18_annulus_positions.
